@@ -9,7 +9,7 @@ hook_shas = [l.split()[0] for l in hooks_commits if "verif hooks" in l]
 
 CLAIMED = {
  "C01": dict(engine="store-spec", design="6/C01",
-   text="TLC exhaustively checks PointEqScan and ViewEqRef (point read = scan = sorted reference map) on FjallStore for all programs of <=4 client operations x all placements of <=4 rotate/flush/compact/ingest steps (1 keyspace) and cross-keyspace batches (2 keyspaces); behaviours chosen by TLC's simulator (length 12-24, 2-3 keys, 1-2 keyspaces) are executed step by step on the real database with background work stepped synchronously, and after every step the full read surface (get/contains_key/size_of/iter/range/prefix in all bound shapes, reverse and both-ended, first/last/len/is_empty, through the keyspace and through snapshots) is compared with the specification's state.",
+   text="TLC exhaustively checks PointEqScan and ViewEqRef (point read = scan = sorted reference map) on FjallStore for all programs of <=4 client operations x all placements of <=4 rotate/flush/compact/ingest steps (1 keyspace) and cross-keyspace batches (2 keyspaces); behaviours chosen by TLC's simulator (two-phase sampling: action kind, then instance; length 12-24, 2-3 keys, 1-2 keyspaces, plus a shadowing-pattern instance with writes / removes / batches against rotate / flush / compact only) are executed step by step on the real database with background work stepped synchronously, and after every step the full read surface (get/contains_key/size_of/iter/range/prefix in all bound shapes, reverse and both-ended, first/last/len/is_empty, through the keyspace and through snapshots) is compared with the specification's state.",
    note="bounded (small-scope) model; lsm-tree's read rules, flush/compaction GC rule and version selection are transcribed into the spec and validated only through replay; replay uses 0 worker threads (maintenance placement is an input), concurrent maintenance is covered by C14/C05/C06 checks",
    technique="TLA+ spec (FjallStore) + TLC exhaustive/simulation + spec-to-implementation replay"),
  "C04": dict(engine="store-spec", design="6/C04",
@@ -25,8 +25,8 @@ CLAIMED = {
    note="bounded model (2 names, ids<=4); crash points inside create/delete are covered by the C02 check",
    technique="TLA+ spec (keyspace lifecycle + meta keyspace) + TLC + replay"),
  "C02": dict(engine="journal-spec", design="6/C02",
-   text="TLC checks CrashRecoversAcked on FjallJournal (every step of the writers' critical sections, 2 threads, single writes / clears / batches, persist calls) and CrashSafe on FjallStore (recovery from the durable state equals the reference content in every reachable state incl. journal rotation, eviction, clear, flush). On the implementation, TLC-chosen behaviours (writes, batches, clears, ingestion, keyspace create/delete, rotation, flush, compaction, forced journal rotation and eviction, reopen) are executed under a syscall-level adversary that takes an image of the database directory before EVERY file-mutating call and at 3 split points of every journal write; every image is opened by the real recovery code and must equal the specification's state before or after the step in flight (one prefix for all keyspaces), and recovery must succeed.",
-   note="process-crash model (page cache survives, prefix-torn writes); single-threaded workloads; file creation through open(2) is not intercepted (coarsens the grid, cannot produce a wrong verdict); known findings D11 (crash during first-time creation) and D1D2 are reported as such",
+   text="TLC checks CrashRecoversAcked on FjallJournal (every step of the writers' critical sections, 2 threads, single writes / clears / batches, persist calls) and CrashSafe on FjallStore (recovery from the durable state equals the reference content in every reachable state incl. journal rotation, eviction, clear, flush). On the implementation, TLC-chosen behaviours (writes, batches, clears, ingestion, keyspace create/delete, rotation, flush, compaction, forced journal rotation and eviction, reopen) are executed under a syscall-level adversary that takes an image of the database directory before EVERY file-mutating call (including those of first-time creation) and at 3 split points of every journal write; every image is opened by the real recovery code and must equal the specification's state before or after the step in flight (one prefix for all keyspaces); then a probe key is written to every keyspace of the recovered image, the image is closed and opened once more, and the probe must be there with nothing else changed.",
+   note="process-crash model (page cache survives, prefix-torn writes); single-threaded workloads; file creation through open(2) is not intercepted (coarsens the grid, cannot produce a wrong verdict); known finding D1D2 is reported as such",
    technique="TLA+ specs (FjallJournal, FjallStore CrashSafe) + TLC + crash-image enumeration at every syscall of replayed behaviours"),
  "C03": dict(engine="journal-format-spec", design="6/C03",
    text="JournalFormat models the journal as cells and the reader as the transcription of Entry::decode_from / JournalReader / JournalBatchReader; TLC checks TornTailAtomic and AppendRecoverable for every cut cell of every layout (EOF and zero-padded, torn multi-byte fields reading as smaller numbers). Real journals written through the API for 8 layouts x both compression settings are cut at every byte offset of the final batch (every 5th in quick), with and without zero padding; each is reopened, must equal the complete earlier batches, the file must be truncated to their end, and an insert appended afterwards must be recovered by a second reopen. Split points of journal write() calls are covered by the crash images of the corpus behaviours.",
@@ -37,15 +37,15 @@ CLAIMED = {
    note="sequential interleavings of view lifetimes with every maintenance step (objects interleaved on one thread realise every logical schedule of the model); true thread schedules are covered by the C14/C06 trace validation",
    technique="TLA+ specs (FjallStore views + tracker, FjallTx tracker) + TLC + replay with frozen-content comparison"),
  "C07": dict(engine="tx-spec", design="6/C07",
-   text="FjallTx models optimistic transactions with the read footprint the code records per method; TLC checks Serializable (every observation of a committing transaction re-evaluated at its commit point), NoEffectUnlessCommitted, PruneKeepsNeeded, LiveSnapshotProtected exhaustively for 2 transactions x <=2-3 operations over all methods and 3 transactions with tracker gc / pruning / version upgrades. TLC-simulated behaviours are replayed on OptimisticTxDatabase (several WriteTransaction objects alive on one thread): every read result, every commit outcome (Ok/Conflict) and the committed content after each commit are compared.",
+   text="FjallTx models optimistic transactions with the read footprint the code records per method and per keyspace (get/contains_key, size_of, scans, the range shapes ..=k / k.. / k..=k, read-modify-write incl. take), the single-operation helpers of the transactional keyspace as one-operation transactions, and two keyspaces holding the same user keys; TLC checks Serializable (every observation of a committing transaction re-evaluated at its commit point), NoEffectUnlessCommitted, PruneKeepsNeeded, LiveSnapshotProtected exhaustively for 2 transactions x <=2-3 operations, for 3 transactions with tracker gc / pruning / version upgrades, and against helper operations. TLC-simulated behaviours are replayed on OptimisticTxDatabase (several WriteTransaction objects alive on one thread): every read result, every commit outcome (Ok/Conflict) and the committed content after each commit are compared. Multi-threaded transaction runs are validated against Tx_Trace.",
    note="method classes by footprint (get/contains_key, size_of, iter/len/is_empty/first/last, range/prefix, insert/remove, take/fetch_update/update_fetch); commit atomicity across threads rests on the oracle mutex, whose critical section is validated by the multi-threaded traces",
    technique="TLA+ spec (FjallTx) + TLC exhaustive + transaction replay"),
  "C08": dict(engine="tx-spec", design="6/C08",
-   text="FjallTx defines in-transaction reads as own-writes-over-snapshot (TxVal), commit as the final write per key in one batch, rollback/conflict as no effect, and the single-writer mutex; TLC checks CommitIsFinalWrites, NoEffectUnlessCommitted, SingleWriterExclusion. Replay of TLC-simulated programs (<=5 operations, commit/rollback endings) on both SingleWriterTxDatabase and OptimisticTxDatabase compares every read (get, contains_key, size_of, iter, range, prefix, len, is_empty, first/last, reverse iteration), fetch_update/update_fetch return values, and the content seen by an outside reader and snapshot after each commit.",
-   note="one keyspace per behaviour in the replay; lost-update freedom under thread schedules rests on the writer mutex (SingleWriterExclusion) ",
+   text="FjallTx defines in-transaction reads as own-writes-over-snapshot (TxVal), commit as the final write per key and keyspace in one batch, rollback/conflict as no effect, and the single-writer mutex; TLC checks CommitIsFinalWrites, NoEffectUnlessCommitted, SingleWriterExclusion (also over two keyspaces with the same user keys). Replay of TLC-simulated programs (<=6 operations, commit/rollback endings, 1 and 2 keyspaces, helper operations in between) on both SingleWriterTxDatabase and OptimisticTxDatabase compares every read (get, contains_key, size_of, iter, range shapes, len, is_empty, first/last, reverse iteration), take / fetch_update / update_fetch return values, and the content seen by an outside reader and snapshot after each commit.",
+   note="lost-update freedom under thread schedules rests on the writer mutex (SingleWriterExclusion)",
    technique="TLA+ spec (FjallTx) + TLC + transaction replay on both transactional databases"),
  "C09": dict(engine="journal-spec", design="6/C09",
-   text="TLC checks PowerLossKeepsDurable and CrashKeepsBuffered on FjallJournal (persist of every mode interleaved with 2 writers, with and without manual journal persist). On the implementation the adversary records fsync/fdatasync per journal file; for every mutating call of TLC-chosen behaviours with persist steps a power-loss image (journal bytes not covered by a sync discarded) is reopened: no value acknowledged before the last sync point (persist(SyncData|SyncAll), journal rotation, drop) may be lost. With manual journal persist, process-crash images must contain everything before the last persist of any mode.",
+   text="TLC checks PowerLossKeepsDurable and CrashKeepsBuffered on FjallJournal (persist of every mode interleaved with 2 writers, with and without manual journal persist). On the implementation the adversary records, per journal file, the byte ranges written since its last successful fsync/fdatasync; for every mutating call of TLC-chosen behaviours (those with journal rotations first) and of the regression corpus a power-loss image (exactly those ranges zeroed) is reopened: no value acknowledged before the last sync point (persist(SyncData|SyncAll), journal rotation, drop) may be lost. With manual journal persist, process-crash images must contain everything before the last persist of any mode.",
    note="power loss discards unsynced JOURNAL bytes (as the property says); table/manifest durability relies on lsm-tree's own fsyncs",
    technique="TLA+ spec (FjallJournal) + TLC + power-loss image enumeration"),
  "C10": dict(engine="store-spec", design="6/C10",
@@ -61,23 +61,23 @@ CLAIMED = {
    note="round trip over ALL byte strings is sampled per class, not decided; known finding D10 (Start.seqno not covered by the checksum)",
    technique="TLA+ spec (JournalFormat) + TLC + byte-alteration campaign + outcome-table conformance"),
  "C18": dict(engine="store-spec", design="6/C18",
-   text="FjallStore with filter assignment by name and a deterministic key-based filter (Remove / ReplaceValue / Keep) applied by compactions: TLC checks FilteredFormOnly, AssignedIffAssigner (also after reopen), FilteredIsSticky (action property), and ViewEqRef for unfiltered keyspaces. Replay with a real compaction filter factory installed through the builder: filtered keyspaces must show original or filtered form (sticky once observed), the exact model state after a major compaction, unfiltered keyspaces the reference map.",
-   note="non-major compaction choices are the strategy's; the replay accepts either form there",
+   text="FjallStore with filter assignment by name - every name has its OWN filter kind (different verdicts per key, same Factory::name()) - applied by compactions: TLC checks FilteredFormOnly, AssignedIffAssigner (also after reopen), FilteredIsSticky (action property, also across reopen, waived only for the signature of D24), and ViewEqRef for unfiltered keyspaces. Replay with real compaction filter factories installed through the builder, filters on a only / b only / both, keyspaces created with fresh options or with options cloned from another keyspace's handle: filtered keyspaces must show original or their own filtered form (sticky once observed), the exact model state after a major compaction, unfiltered keyspaces the reference map.",
+   note="non-major compaction choices are the strategy's; the replay accepts either form there; known finding D24 (filter-removed item replayed from the journal)",
    technique="TLA+ spec (FjallStore filters) + TLC + replay with a real filter factory"),
  "C06": dict(engine="mvcc-spec", design="6/C06",
    text="FjallMVCC models writers stepping through the journal critical section (draw - apply item by item - publish), version upgrades of any tree that draw from the shared seqno counter and raise the shared visible counter without the journal mutex, and snapshot readers; TLC checks NoTornBatch, InflightAboveVisible, ViewsFrozen, MutualExclusion for all schedules of 2 writers (a 2-item batch over 2 keyspaces) x 2 views, without and with version upgrades (the latter reaches the open finding D7, waived only downstream of its signature). The TLC counterexample is forced on the real code with pause sites (writer parked between two applies, flush of another keyspace, snapshot reads both keys). Multi-threaded runs of the real code (4-6 threads, 2-4 real workers, tiny memtables, batches over 2 keyspaces, snapshots) are recorded through hooks under the journal mutex and validated against MVCC_Trace, which evaluates NoTornBatch in every state of the trace.",
    note="lsm-tree's version upgrade is not hookable: inferred as forced silent steps from the seqno/visible scalars logged with every event; binding self-test (trace with a removed WApply must be rejected) on every run; known finding D7",
    technique="TLA+ spec (FjallMVCC) + TLC exhaustive + forced schedule + trace validation of multi-threaded runs"),
  "C14": dict(engine="mvcc-spec", design="6/C14",
-   text="FjallMVCC: seqno order = order of critical sections = apply order (MutualExclusion), reads see applied entries; TLC explores all schedules of the bounded instance. On the implementation 2-8 threads write and read the same small key set through cloned handles with 1-4 real worker threads and tiny memtables (rotation, flush, compaction running); call/return events per thread plus the internal draw/apply/publish events are validated against MVCC_Trace: every get must return a value the key had between its call and its return, every write must occupy exactly one critical section in seqno order, and the final content must equal the model state at the end of the trace.",
-   note="liveness of the write stall is observed only as: no run exceeds its watchdog and the database drop returns (the drop path itself is decided by C17's model); binding self-test on every run",
+   text="FjallMVCC: seqno order = order of critical sections = apply order (MutualExclusion), reads see applied entries; WorkerQueue: the worker pool's message protocol with the journal mutex - NoSendUnderLock / WritersNeverStuck (a writer's progress never depends on room in the worker queue). On the implementation 2-8 threads write and read the same small key set through cloned handles with 1-4 real worker threads and tiny memtables; call/return events per thread plus the internal draw/apply/publish events are validated against MVCC_Trace (every get must return a value the key had between its call and its return - also against an in-flight clear -, every write occupies exactly one critical section in seqno order, the final content equals the model state); a watchdog turns client threads that never finish into a violation; a flood probe (tight-loop writers, 1000-byte memtables, 1-2 workers, worker queue filling up) reports writers that stop making progress and checks that nothing acknowledged is lost.",
+   note="liveness of the writers is decided on the WorkerQueue model and probed on the implementation with watchdogs; that background work itself can stop for ever (every worker blocked in send(Flush)) is reported as an observation, it breaks no listed property; binding self-test on every run",
    technique="TLA+ spec (FjallMVCC) + TLC + trace validation of multi-threaded runs (linearization points as silent steps)"),
  "C17": dict(engine="lifecycle-spec", design="6/C17",
-   text="DbLifecycle models the version marker, the advisory lock shared by DatabaseInner and every KeyspaceInner, user handles, the worker pool (thread counter, bounded queue whose messages carry keyspace clones), every step of Drop for DatabaseInner, the field drop order of DatabaseInner / KeyspaceInner, Drop for Journal and the unlock. TLC checks HandleImpliesLock, AtMostOneInstance, RefusedChangesNothing, IncompatibleRefused, AbsentMarkerRefused, UnlockAfterSync, NoUnsyncedOpen, DropReturnedWorkersGone, SettledUnlocked exhaustively (2-3 interleaved open attempts, 2 workers that may fail, both handle kinds, messages sent through keyspace handles) and DropTerminatesAll under weak fairness; five variants that re-introduce the repaired defects D9/D19/D20/D21/D22 must each be rejected by the model on every run. Binding: forced schedules with pause sites for each model counterexample; TLC-simulated client-level behaviours (open attempts of all three database types, every marker class, clone/drop orders, writes, messages) replayed with real worker threads comparing lock state (flock probe), open result, directory digest after refused opens, worker threads alive, journal dropped, journal bytes covered by fsync (syscall record); multi-threaded handle churn recorded through lifecycle hooks and validated against Life_Trace with every invariant evaluated in every state.",
+   text="DbLifecycle models the version marker, the advisory lock shared by DatabaseInner and every KeyspaceInner, user handles, the worker pool (thread counter, bounded queue whose messages carry keyspace clones), every step of Drop for DatabaseInner, the field drop order of DatabaseInner / KeyspaceInner, Drop for Journal and the unlock. TLC checks HandleImpliesLock, AtMostOneInstance, RefusedChangesNothing, IncompatibleRefused, AbsentMarkerRefused, UnlockAfterSync, NoUnsyncedOpen, DropReturnedWorkersGone, SettledUnlocked exhaustively (2-3 interleaved open attempts, 2 workers that may fail, both handle kinds, messages sent through keyspace handles) and DropTerminatesAll under weak fairness; six variants that re-introduce the repaired defects D9/D19/D20/D21/D22/D26 must each be rejected by the model on every run (the worker queue is modelled with flume's semantics: a sender blocked on the full queue is admitted only when a receiver finds room). Binding: forced schedules with pause sites for each model counterexample (worker delayed on its way out, worker that fails, worker blocked in send(Flush), message stranded in the queue, marker removed); TLC-simulated client-level behaviours (open attempts of all three database types, every marker class, clone/drop orders, writes, messages) replayed with real worker threads comparing lock state (flock probe), open result, directory digest after refused opens, worker threads alive, journal dropped, journal bytes covered by fsync (syscall record); multi-threaded handle churn recorded through lifecycle hooks and validated against Life_Trace with every invariant evaluated in every state.",
    note="hook placement rule (releasing steps logged before, acquiring steps after) makes the logged lock-holding interval a subset of the real one; refusals with Locked are explained with the opposite approximation; the worker queue is not observed in traces; doc-hidden Keyspace::rotate_memtable through a keyspace that outlived its Database is out of scope",
    technique="TLA+ spec (DbLifecycle) + TLC safety/liveness + forced schedules + behaviour replay + trace validation"),
  "C16": dict(engine="options-spec", design="6/C16",
-   text="FjallOptions models how a keyspace's configuration is stored (one row per option under 'c'+id, strategy-specific rows, key-value-separation rows only when enabled, all written by one ingestion), how delete_keyspace tombstones the rows visible at that moment, the meta tree's own compaction, id hand-out and re-seeding, seqno restoration, and recovery's decoder (from_kvs: strategy name selects the strategy rows, the 'blob' row selects the separation rows, a missing mandatory row panics); TLC checks InForce (configuration in force = configuration at creation, after any number of reopens), StoredExact, DecodeOfStored, OpenIgnoresPassed, IdsDistinct exhaustively over create / open-existing / delete / re-create / reopen with configurations that differ in their row sets. TLC-simulated behaviours over the full product of 432 configuration classes are replayed on the real code: each class is concretised with pseudo-random values (policy vectors of length 1, 2-6, 7, 255; ratio vectors up to 256; extreme numbers), existing keyspaces are always opened with different options, and after every step the Keyspace.config struct, the lsm-tree Config applied to the tree, and behavioural witnesses (journal flush on write, rotation request size) of every live keyspace are compared with what it was created with.",
+   text="FjallOptions models how a keyspace's configuration is stored (one row per option under 'c'+id, strategy-specific rows, key-value-separation rows only when enabled, all written by one ingestion), how delete_keyspace tombstones the rows visible at that moment, the meta tree's own compaction, id hand-out and re-seeding, seqno restoration, and recovery's decoder; TLC checks InForce, StoredExact, DecodeOfStored, NoDeadRows, OpenIgnoresPassed, IdsDistinct exhaustively over create / open-existing / delete / re-create / reopen with configurations that differ in their row sets. TLC-simulated behaviours over the full product of 432 configuration classes are replayed on the real code: each class is concretised with pseudo-random values (policy vectors of length 1, 2-6, 7, 255; ratio vectors up to 256; extreme numbers), existing keyspaces are always opened with different options, and after every step (i) the Keyspace.config struct, (ii) the lsm-tree Config applied to the tree, (iii) behavioural witnesses (journal flush on write, rotation request size), (iv) the keyspace ids and (v) the stored form itself - the rows of the meta keyspace per id, which must be exactly the rows of the live keyspaces' configurations and nothing for any other id - are compared with the specification.",
    note="value-level fidelity is decided per class on random representatives, not for all values (stated in DESIGN.md 6/C16); level_count is not settable (hard-coded 7); compaction filter factories are C18's",
    technique="TLA+ spec (FjallOptions) + TLC exhaustive + class-concretising replay with three observation paths"),
 }
@@ -124,6 +124,8 @@ m = {
     "kind_free_text": "TLA+ specification of optimistic (SSI) and single-writer transactions; MC_Tx_*.cfg; MC_TxSim (behaviour generation)"},
    {"name": "mvcc-spec", "path": "spec/FjallMVCC.tla", "serves_properties": ["C05", "C06", "C14"],
     "kind_free_text": "TLA+ specification of writers' critical sections, version upgrades on the shared counters, snapshot readers; MC_MVCC_*.cfg; MVCC_Trace (trace validation of multi-threaded runs)"},
+   {"name": "worker-queue-spec", "path": "spec/WorkerQueue.tla", "serves_properties": ["C14"],
+    "kind_free_text": "TLA+ specification of the worker pool's message protocol (bounded queue, try_send by writers, blocking sends by workers, journal mutex, write stall); MC_WorkerQueue_Lock.cfg (C14: writers never depend on queue room), MC_WorkerQueue.cfg (observation: background work can stop)"},
    {"name": "options-spec", "path": "spec/FjallOptions.tla", "serves_properties": ["C16"],
     "kind_free_text": "TLA+ specification of the stored form of keyspace options (meta keyspace rows), deletion, re-creation, recovery decoder; MC_Opts.cfg; MC_OptsSim (behaviour generation)"},
    {"name": "lifecycle-spec", "path": "spec/DbLifecycle.tla", "serves_properties": ["C17"],
